@@ -1,15 +1,69 @@
-(* C09 — evaluation is lazy and referentially transparent: the property theorems. *)
+(* C09 — evaluation is lazy and referentially transparent: the property theorems.
+   S = call-by-name semantics (Lazy/Spec.v), I = call-by-need machine (Lazy/Need.v). *)
 From Coq Require Import List String ZArith.
-From NV Require Import Lazy.Syntax Lazy.Spec Lazy.SpecFacts Lazy.Laws.
+From NV Require Import Lazy.Syntax Lazy.Spec Lazy.SpecFacts Lazy.Laws Lazy.Abs Lazy.Ctx
+  Lazy.FieldPath Lazy.Need Lazy.NeedRef Lazy.Refute.
 Import ListNotations.
 
+(* fuel monotonicity: a result, once produced, is produced with every larger fuel; hence
+   [run_equiv] ("for some fuel") is the same as "for all sufficiently large fuel" *)
 Theorem C09_fuel_monotone : forall fl n m rho t r,
-  eval fl n rho t = r -> r <> OutOfFuel -> n <= m -> eval fl m rho t = r.
-Proof. exact eval_mono. Qed.
+  run fl n rho t = r -> r <> OutOfFuel -> n <= m -> run fl m rho t = r.
+Proof. exact run_mono. Qed.
 
-Theorem C09_elem_abs : forall fl rho e, eval_equiv fl rho (At (Num 0) (Arr [e])) rho e.
-Proof. exact elem_abs_eval. Qed.
+Theorem C09_let_abs : forall fl rho x e b,
+  nocap (fv e) x b = true -> run_equiv fl rho (Let x e b) rho (subst x e b).
+Proof. exact let_abs. Qed.
+
+Theorem C09_beta_abs : forall fl rho x e b,
+  nocap (fv e) x b = true -> run_equiv fl rho (App (Lam x b) e) rho (subst x e b).
+Proof. exact beta_abs. Qed.
+
+Theorem C09_field_abs : forall fl rho f e,
+  ~ In f (fv e) -> run_equiv fl rho (Get (Rec [(f, e)]) f) rho e.
+Proof. exact field_abs. Qed.
+
+Theorem C09_elem_abs : forall fl rho e, run_equiv fl rho (At (Num 0) (Arr [e])) rho e.
+Proof. exact elem_abs. Qed.
+
+Theorem C09_import_abs : forall fl rho f e,
+  lookup f fl = Some e -> fv e = [] -> run_equiv fl rho (Import f) rho e.
+Proof. exact import_abs. Qed.
+
+(* the three local rewrites at any number of positions inside any program context *)
+Theorem C09_ctx_abs : forall fl t t' rho, prw fl t t' -> run_equiv fl rho t rho t'.
+Proof. exact ctx_abs. Qed.
 
 Theorem C09_seq_ok : forall fl rho v e k w,
-  eval fl k rho v = Ok w -> eval_equiv fl rho (Seq v e) rho e.
-Proof. exact seq_ok_eval. Qed.
+  eval fl k rho v = Ok w -> run_equiv fl rho (Seq v e) rho e.
+Proof. intros. apply eval_equiv_run_equiv. eapply seq_ok_eval; eauto. Qed.
+
+Theorem C09_field_extraction : forall fl n rho e path d d',
+  run fl n rho e = Ok d -> lookup_path path d = Some d' ->
+  (exists m, extract fl m rho e path = Ok d') /\ (exists m, run fl m rho (gets e path) = Ok d').
+Proof.
+  intros. split; [eapply field_extraction|eapply field_extraction_gets]; eauto.
+Qed.
+
+Theorem C09_field_extraction_lazy : forall fl path rho e d,
+  (exists n, run fl n rho (gets e path) = Ok d) <-> (exists m, extract fl m rho e path = Ok d).
+Proof.
+  intros. split; intros [n H]; [eapply field_extraction_lazy|eapply field_extraction_lazy_conv]; eauto.
+Qed.
+
+(* refinement of the call-by-need machine, acyclic fragment *)
+Theorem C09_need_refines_name_partial : forall fl n t r h,
+  forallb (fun p => acyclic (snd p)) fl = true -> acyclic t = true ->
+  runN fl Good n t = (r, h) -> r <> OutOfFuel -> r <> Err InfiniteRec ->
+  exists m, run fl m [] t = r.
+Proof. intros fl n t r h Hfl. exact (need_refines_name fl Hfl n t r h). Qed.
+
+(* the full statement (let rec and recursive records included) — not proved *)
+Definition C09_full_need_refines_name : Prop :=
+  forall fl t, refines_on fl Good t.
+
+Theorem C09_need_wrongcell_refuted : exists t, acyclic t = true /\ ~ refines_on [] WrongCell t.
+Proof. exact need_wrongcell_refuted. Qed.
+
+Theorem C09_need_callerenv_refuted : exists t, acyclic t = true /\ ~ refines_on [] CallerEnv t.
+Proof. exact need_callerenv_refuted. Qed.
